@@ -8,7 +8,9 @@ import math
 
 
 class QuoteBook(object):
-    def __init__(self, numpy_floats=False, numpy_ints=False):
+    def __init__(self, numpy_floats=False, numpy_ints=False, python_int_scale=None):
+        # python_int_scale: an integer-tick venue quoting in a tiny currency unit - quotes are (large) Python ints
+        self._pyint = python_int_scale
         self.q = {}
         self.queries = 0
         self._np = None
@@ -18,6 +20,8 @@ class QuoteBook(object):
             self._np = np
 
     def _f(self, x):
+        if self._pyint:
+            return int(round(float(x) * self._pyint))
         if self._ints:
             return self._np.int64(int(x))      # whole prices served as numpy integers (an integer price column)
         if self._np is not None:
@@ -43,6 +47,8 @@ class QuoteBook(object):
 
     def mid(self, asset):
         b, a = self.bid_ask(asset)
+        if self._pyint and asset in self.q:
+            return (b + a) // 2                 # the handler's own mid: a whole tick inside the quote
         if self._ints and asset in self.q and (int(b) + int(a)) % 2 == 0:
             return self._np.int64((int(b) + int(a)) // 2)
         f = getattr(self, "mid_frac", 0.5)
